@@ -30,7 +30,7 @@ ASSUMPTIONS = [
     'the per-unit outputs used as reference are themselves measured on the tool (all other '
     'units failing); the anchor is the fault-free run without --skip-failed',
 ]
-BUDGET = {'quick': 6, 'thorough': 300}
+BUDGET = {'quick': 6, 'thorough': 40}
 WALL = {'quick': 900, 'thorough': 3 * 3600}
 EXHAUSTIVE_NOTE = {'quick': 'all 2^n fault subsets of every generated input (n <= 5)',
     'thorough': 'all 2^n fault subsets of every generated input (n <= 5)'}
